@@ -74,6 +74,32 @@ Definition gen_cfg (c : opcfg) : opcfg :=
 Definition exclusion_files := list (list bytes).
 Definition gen_regexes (files : exclusion_files) : list bytes := concat files.
 
+(* What is a line.  readLocalExclusionFile / readRemoteExclusionFile read with a bufio.Scanner
+   (bufio.ScanLines): the content is cut at every LF, one trailing CR is dropped from each piece
+   (CRLF files), the text after the last LF is a line too when it is not empty (a file need not
+   end in a newline), and nothing follows a final LF.  A blank line is the empty expression.
+   (Not modelled: a line above the scanner's 64 KiB token limit makes GenerateCrawlConfig fail.) *)
+Definition LF : ascii := ascii_of_N 10.
+Definition CR : ascii := ascii_of_N 13.
+
+Fixpoint drop_last_cr (s : bytes) : bytes :=
+  match s with
+  | [] => []
+  | [c] => if Ascii.eqb c CR then [] else [c]
+  | c :: r => c :: drop_last_cr r
+  end.
+
+(* [acc] = the current line so far, reversed *)
+Fixpoint lines_acc (acc : bytes) (s : bytes) : list bytes :=
+  match s with
+  | [] => match acc with [] => [] | _ => [drop_last_cr (rev acc)] end
+  | c :: r => if Ascii.eqb c LF then drop_last_cr (rev acc) :: lines_acc [] r else lines_acc (c :: acc) r
+  end.
+Definition read_lines (content : bytes) : list bytes := lines_acc [] content.
+
+(* the effective expressions for files given by their CONTENT *)
+Definition gen_regexes_raw (contents : list bytes) : list bytes := gen_regexes (map read_lines contents).
+
 (* matchRegexExclusion's inputs for one URL text: the answers of the effective expressions, in
    order.  [matches re text] = regexp.MustCompile(re).MatchString(text) is an oracle. *)
 Definition regex_bits (matches : bytes -> bytes -> bool) (files : exclusion_files) (text : bytes) : list bool :=
